@@ -28,10 +28,23 @@ Proof. exact C12_run_lemma. Qed.
 Print Assumptions C12_run.
 
 Theorem C12_undecodable : forall c s e payload tbl x,
-  aget str_eqb (binpkt s) e = None -> decode (table_loads tbl) payload = Err x ->
+  aget str_eqb (binpkt s) e = None -> decode_any c (table_loads tbl) payload = Err x ->
   step c s (EioMessage e payload tbl) = (s, []).
 Proof. exact C12_undecodable_lemma. Qed.
 Print Assumptions C12_undecodable.
+
+(* msgpack serializer: a value that is not a dict, or a dict without 'type' or without 'nsp',
+   or bytes the msgpack library rejects, never reaches a handler *)
+Theorem C12_msgpack_mistyped_rejected : forall c s e payload tbl,
+  uses_binary c = false -> aget str_eqb (binpkt s) e = None -> truthy payload = true ->
+  (match table_loads tbl (match payload return str with PBytes b | PStr b => b | _ => [] end) with
+   | Err _ => True
+   | Ok (PDict kv) => dict_get kv (PStr (s2l "type")) = None \/ dict_get kv (PStr (s2l "nsp")) = None
+   | Ok _ => True
+   end) ->
+  step c s (EioMessage e payload tbl) = (s, []).
+Proof. exact C12_msgpack_mistyped_rejected_lemma. Qed.
+Print Assumptions C12_msgpack_mistyped_rejected.
 
 Theorem C12_guard_count : forall loads c0 ds rest,
   forallb is_digit ds = true -> (10 < List.length ds)%nat ->
